@@ -2082,4 +2082,5 @@ func (g *fgen) genC08() {
 	g.genPageFail(nMeta)
 	g.genDips(nMeta)
 	g.genReobsFail(nMeta)
+	g.genMetaChange(nMeta) // "the attested metadata equals what the token contract itself reports" while those answers change
 }
